@@ -16,11 +16,11 @@ CHECK = {
                     'bucket counts stay far below the point where sizeof(bucket)*n wraps (outside the stated properties)',
                     'gcc 12 ASan/UBSan runtimes; harness model = set of live element addresses per table'],
     'runs': [
-        {'harness': 'hash', 'mode': 'lookup', 'sources': ['harness/hash.c'] + EX, 'configs': both(['dbg-asan', 'rel-asan'    # big tables: forced finishes after partial progress, later lives of a table object with large first resizes (harness/hashwork.c)
-        {'harness': 'hashwork', 'sources': ['harness/hashwork.c'], 'configs': both(['rel-native', 'rel-asan'])},
-    ], ['dbg-asan', 'rel-asan', 'rel-plain']),
+        {'harness': 'hash', 'mode': 'lookup', 'sources': ['harness/hash.c'] + EX, 'configs': both(['dbg-asan', 'rel-asan'], ['dbg-asan', 'rel-asan', 'rel-plain']),
          # quick: the release build (what is shipped: -O2 -DNDEBUG) on the closure scopes and the first random histories
          'max_cases': {'rel-asan': {'quick': 260}}},
+        # big tables: forced finishes after partial progress, later lives of a table object with large first resizes (harness/hashwork.c)
+        {'harness': 'hashwork', 'sources': ['harness/hashwork.c'], 'configs': both(['rel-native', 'rel-asan'])},
     ],
 }
 
